@@ -2,3 +2,4 @@ pub mod chain;
 pub mod crash;
 pub mod freeze;
 pub mod pool;
+pub mod rules;
